@@ -144,11 +144,9 @@ example : findMatches id Ex.fs2 Ex.fmap2 [[100]] [3,4] [⟨0, 2, none, ⟨[102],
         covered by some piece is identical to the original), every copy that is made takes a file
         with exactly the original contents of the file it is placed as.
     Without `hnd` (2) is false: `v1_decoy_witness` (known finding KF-C13-1).
-
-    Full statement not proved: (2) under the weaker hypothesis that no decoy *enumerated before an
-    intact copy* agrees with the original on the *first* piece covering the file.  Missing: the
-    argument that later pieces, whose search may pick such a decoy again, never overwrite the file
-    copied first (it needs the destination file's size to be tracked through the trace). -/
+    This version makes no assumption about what the destination already contains or about the
+    file paths; `rebuild_v1_complete` below proves the full statement (weakest decoy hypothesis,
+    final contents) for a fresh destination. -/
 theorem rebuild_v1_complete_partial (H1 : Bytes → Bytes) (ds : Nat) (fs : FS) (filemap : FileMap)
     (dest : Path) (pl : Nat) (hpl : 0 < pl) (files : List FileRec) (orig : List Bytes)
     (hd : CleanPath dest) (hr : DestReady fs dest) (hok : FilemapOK fs dest filemap)
@@ -226,6 +224,68 @@ example : ¬ NoPartialDecoy Ex.fs2 Ex.fmap2
     [([[115], [107], [102]], 4), ([[115], [102]], 4)] [[115],[107],[102]] [1,2,9,9] [1,2,3,4]
     (by decide) (by decide) (by decide) (by decide) (by decide)
   exact absurd this (by decide)
+
+/-- … and so does the weaker hypothesis of `rebuild_v1_complete`: the decoy is enumerated before
+    the intact copy and agrees with it on the first piece -/
+example : ¬ NoFirstPieceDecoy Ex.fs2 Ex.fmap2
+    (v1PieceNodes 2 [[1,2],[3,4]] [⟨[102], [102], 4, none⟩]) [[1,2,3,4]] := by
+  intro h
+  have := h [] ([1,2], [⟨0, 0, some 2, ⟨[102], [102], 4, none⟩⟩])
+    [([3,4], [⟨0, 2, some 4, ⟨[102], [102], 4, none⟩⟩])] (by decide)
+    ⟨0, 0, some 2, ⟨[102], [102], 4, none⟩⟩ (by decide) (by simp)
+    [([[115], [107], [102]], 4), ([[115], [102]], 4)] [([[115], [107], [102]], 4)] ([[115], [102]], 4) []
+    [1,2,3,4] (by decide) (by decide) (by decide) (by decide) (by decide)
+    ([[115], [107], [102]], 4) (by decide) (by decide) [1,2,9,9] (by decide) (by decide)
+  exact absurd this (by decide)
+
+/-- v1 completeness, full statement with the exact hypothesis of KF-C13-1.  Let `orig` be the
+    original contents, the metafile honest (recorded lengths; `H1` of the successive `pl`-slices,
+    at least one byte), `H1` collision free, the filemap describe the search directories, an intact
+    same-name copy of every file be among the candidates, the destination exist, nothing exist yet
+    at the accepted destination paths (`DestFresh`), and the accepted paths of different records
+    be different and not nested (`DestsSeparate`).  Assume further (`NoFirstPieceDecoy`) that for
+    the FIRST piece covering a file no same-name same-size candidate ENUMERATED BEFORE an intact
+    copy agrees with the original on the range of the file that this piece covers (unless it is
+    identical to the original).  Then
+    (1) after the rebuild every accepted file is a regular file at its assigned path with exactly
+        its original contents, and it is counted;
+    (2) every `shutil.copy` that is executed copies a file with the original contents of the file
+        it is placed as (later pieces may select a decoy again, but that call is skipped because
+        the destination already has the full length). -/
+theorem rebuild_v1_complete (H1 : Bytes → Bytes) (hinj : ∀ a b, H1 a = H1 b → a = b) (ds : Nat) (fs : FS)
+    (filemap : FileMap) (dest : Path) (pl : Nat) (hpl : 0 < pl) (files : List FileRec) (orig : List Bytes)
+    (hd : CleanPath dest) (hr : DestReady fs dest) (hok : FilemapOK fs dest filemap)
+    (hlens : files.map (·.length) = orig.map List.length) (hne : orig.flatten ≠ [])
+    (hint : IntactV1 fs filemap files orig) (hsep : DestsSeparate dest files)
+    (hfresh : DestFresh fs dest files)
+    (hF : NoFirstPieceDecoy fs filemap (v1PieceNodes pl ((chunks pl orig.flatten).map H1) files) orig) :
+    let res := matchV1 H1 ds fs filemap dest pl ((chunks pl orig.flatten).map H1) files
+    (∀ (i : Nat) (r : FileRec) (dp : Path), files[i]? = some r → safeJoin dest r.full = some dp →
+      ∃ o, orig[i]? = some o ∧ applyOps fs res.1 dp = some (.file o) ∧ r.full ∈ res.2) ∧
+    (∀ src dst, Op.copy src dst ∈ res.1 →
+      ∃ r ∈ files, ∃ (i : Nat) (o : Bytes), files[i]? = some r ∧ safeJoin dest r.full = some dst ∧
+        orig[i]? = some o ∧ fs.readFile? src = some o) := by
+  intro res
+  obtain ⟨h1, h2⟩ := matchV1_restores H1 hinj ds fs filemap dest pl hpl files orig hd hr hok hlens hne
+    hint hsep hfresh hF
+  refine ⟨?_, h2⟩
+  intro i r dp hfi hsj
+  obtain ⟨o, ho, hfin⟩ := h1 i r dp hfi hsj
+  exact ⟨o, ho, hfin, matchV1_complete H1 ds fs filemap dest pl hpl files orig hd hr hok hlens hne hint r
+    (List.mem_of_getElem? hfi) (by rw [hsj]; rfl)⟩
+
+/-- all hypotheses hold in the decoy world when the original `/s/f` is enumerated BEFORE the decoy
+    `/s/k/f` (`Ex.fmap3`) – although the decoy agrees with the original on the first piece; the
+    original is placed: `/d/f` = 1 2 3 4 -/
+example : CleanPath [[100]] ∧ DestReady Ex.fs2 [[100]] ∧ FilemapOK Ex.fs2 [[100]] Ex.fmap3 ∧
+    IntactV1 Ex.fs2 Ex.fmap3 [⟨[102], [102], 4, none⟩] [[1,2,3,4]] ∧
+    DestsSeparate [[100]] [⟨[102], [102], 4, none⟩] ∧ DestFresh Ex.fs2 [[100]] [⟨[102], [102], 4, none⟩] ∧
+    NoFirstPieceDecoy Ex.fs2 Ex.fmap3 (v1PieceNodes 2 [[1,2],[3,4]] [⟨[102], [102], 4, none⟩]) [[1,2,3,4]] ∧
+    (let res := matchV1 id 4096 Ex.fs2 Ex.fmap3 [[100]] 2 [[1,2],[3,4]] [⟨[102], [102], 4, none⟩]
+     res = ([Op.copy [[115],[102]] [[100],[102]]], [[102]]) ∧
+     applyOps Ex.fs2 res.1 [[100],[102]] = some (.file [1,2,3,4])) :=
+  ⟨by decide, by decide, Ex.filemapOK3, Ex.intactV1_3, Ex.destsSeparate_single _ _, Ex.destFresh_2,
+    Ex.noFirstPieceDecoy_3, by decide⟩
 
 /-- v1: every file that is counted has an accepted destination path strictly below the
     destination directory, and that path exists when the rebuild is over. -/
